@@ -145,7 +145,7 @@ func (r *FileReader) SkipNext() error {
 		start := r.reader.Count()
 		payloadSizeUncompressed, payloadSizeCompressed, recordNil, err := readRecordHeaderV4(r.recordHeaderByteReader)
 		if err != nil {
-			return fmt.Errorf("error while reading record header of '%s': %w", r.file.Name(), err)
+			return r.skipHeaderError(err)
 		}
 
 		expectedBytesSkipped := payloadSizeUncompressed
@@ -174,6 +174,26 @@ func (r *FileReader) SkipNext() error {
 	}
 
 	return nil
+}
+
+// skipHeaderError maps a failed header read while skipping to the error ReadNext reports in the same situation: files
+// written with block aligned (DirectIO) writes end in zero padding, which is the end of the file and not a malformed record.
+func (r *FileReader) skipHeaderError(err error) error {
+	if errors.Is(err, MagicNumberMismatchErr) {
+		remainder, readErr := io.ReadAll(r.reader)
+		if readErr != nil {
+			return fmt.Errorf("error while parsing record header seeking for file end of '%s': %w", r.file.Name(), readErr)
+		}
+		for _, b := range remainder {
+			if b != 0 {
+				return fmt.Errorf("error while parsing record header for zeros towards the file end of '%s': %w", r.file.Name(), MagicNumberMismatchErr)
+			}
+		}
+
+		return io.EOF
+	}
+
+	return fmt.Errorf("error while reading record header of '%s': %w", r.file.Name(), err)
 }
 
 // SkipNextV1 is legacy support path for non-vint compressed V1
@@ -222,7 +242,7 @@ func SkipNextV2(r *FileReader) error {
 	start := r.reader.Count()
 	payloadSizeUncompressed, payloadSizeCompressed, err := readRecordHeaderV2(r.reader)
 	if err != nil {
-		return fmt.Errorf("error while reading record header of '%s': %w", r.file.Name(), err)
+		return r.skipHeaderError(err)
 	}
 
 	expectedBytesSkipped := payloadSizeUncompressed
@@ -250,7 +270,7 @@ func SkipNextV3(r *FileReader) error {
 	start := r.reader.Count()
 	payloadSizeUncompressed, payloadSizeCompressed, recordNil, err := readRecordHeaderV3(r.reader)
 	if err != nil {
-		return fmt.Errorf("error while reading record header of '%s': %w", r.file.Name(), err)
+		return r.skipHeaderError(err)
 	}
 
 	expectedBytesSkipped := payloadSizeUncompressed
